@@ -23,6 +23,7 @@ type c19World struct {
 	msgs   map[int][]interface{}
 	fail   map[int]bool
 	cur    *c19Event
+	onCreate func(id int)
 }
 
 type c19Sub struct {
@@ -85,6 +86,9 @@ func (r *c19Root) Resolve(f *ggql.Field, args map[string]interface{}) (interface
 	case "listen":
 		topic, _ := args["topic"].(string)
 		s := &c19Sub{w: r.w, id: r.w.nextID, topic: topic}
+		if r.w.onCreate != nil {
+			r.w.onCreate(s.id)
+		}
 		r.w.nextID++
 		return ggql.NewSubscription(s, f, args), nil
 	}
